@@ -10,5 +10,5 @@ git -C $W apply "$P"
 mkdir -p /tmp/try_evidence_$WT; cd /verif && VERIF_EVIDENCE_DIR=/tmp/try_evidence_$WT VERIF_REPO=$W timeout 1800 ./check $ID --tier $T > /tmp/try_${WT}_$ID.out 2>&1
 rc=$?
 git -C $W reset -q --hard
-grep -E "VIOLATION|MACHINERY|KNOWN" /tmp/try_${WT}_$ID.out | head -3 | cut -c1-300
-echo "rc=$rc"
+echo "rc=$rc violations=$(grep -c "^VIOLATION" /tmp/try_${WT}_$ID.out) known=$(grep -c "^KNOWN-FINDING" /tmp/try_${WT}_$ID.out)"
+grep -E "^VIOLATION|MACHINERY" /tmp/try_${WT}_$ID.out | head -2 | cut -c1-200
